@@ -57,15 +57,15 @@ Definition C07_final_increasing : Prop :=
     Forall (fun e => filter_pass c (estep e) = true) (fst res) /\
     (forall cu, j_mode c = 1 -> j_cursor c = Some cu -> Forall (fun e => rn (cu_blk cu) < bnum (eblk e)) (fst res)).
 
-(* NOT PROVED: the final-blocks-only clause in cursor mode.  The cursor is on a final canonical block L
-   (IsOnFinalBlock: cursor block = cursor LIB block = L); c07_prop checks final_fold (Some (id of L)).  With the memory
-   starting at L's number no counterexample is known (the witness of c07_final_cursor_refuted is repaired), and the
-   argument of C07_seamless_num_final carries over with the file blocks `rest` after L in place of the delivery from
-   start and the memory Some (bnum L) in place of None; what is missing is (1) that generalisation of
-   Proofs/C07_Final.v (final_join / final_live are written for number mode: file events of file_delivery, memory None),
-   (2) the new+irreversible part of the hub's answer to a final cursor, blocks_from_cursor, in both of its paths (cursor
-   block on the hub's chain: from_cursor_fast; hub on a fork below L: the undo path, all of whose events a
-   final-blocks-only handler never sees), like burst_irr for blocks_from_num. *)
+(* The final-blocks-only clause in cursor mode (PROVED: c07_seamless_cursor_final, Proofs/C07_FinalCursor.v).  The cursor is
+   on a final canonical block L (IsOnFinalBlock: cursor block = cursor LIB block = L); c07_prop checks
+   final_fold (Some (id of L)): the first delivered block is the child of L, each further one extends the previous one -
+   for EVERY outcome, any stop block, under the world hypotheses of the C07 theorems alone (no agreement hypothesis between
+   the files, the cursor and the hub's LIB: the filter's memory, which starts at L's number, drops what the hub announces
+   again).  When the stream ends waiting: nothing was delivered (the files do not hold L yet / the hub's LIB never got
+   above L), or it never left the files and has delivered the merged blocks above L, or it has delivered exactly the
+   canonical blocks above L up to a height at or above the hub's LIB: every final canonical block after the cursor,
+   once, in order. *)
 Definition C07_seamless_cursor_final_full : Prop :=
   forall (U : list block) (c : jcfg) (w : world) (ps : list (N * N)) (merged_end : N) (canon forked : list block)
          (cu : cursor) (L : block) (rest : list block),
